@@ -12,6 +12,7 @@ import Emboss.Lemmas.TokFile
 import Emboss.Lemmas.TokTable
 import Emboss.Lemmas.TokBoundary
 import Emboss.Lemmas.TokLongest
+import Emboss.Lemmas.TokSplit
 import Emboss.Generated.TokTable
 namespace Emboss.Tok
 open Emboss.Regex Emboss.Generated
@@ -96,6 +97,17 @@ theorem C10_longest_match (pats : List Pat) (ln : Nat) (line : List Char) (segs 
   obtain ⟨_, _, _, _, _, _, _, pre, p, post, h1, h2, h3, h4, h5⟩ := h.token_facts t ht
   simp only [Nat.sub_zero] at h2 h4 h5
   exact ⟨pre, p, post, h1, h3, h2, h4, h5⟩
+
+/-- Line splitting (`str.splitlines`) is lossless up to the terminators: the lines, in order,
+concatenate to the text with exactly the line-boundary characters removed, and no line
+contains one.  (Together with `C10_lossless_line`: every character of the text other than a
+line terminator lies in exactly one token or whitespace gap.) -/
+theorem C10_splitlines_lossless (text : List Char) :
+    (splitLines text).flatten = text.filter (fun c => !isBreakChar c) ∧
+    ∀ l ∈ splitLines text, ∀ c ∈ l, isBreakChar c = false :=
+  ⟨splitLines_flatten text, splitLines_no_break text⟩
+
+example : splitLines "a\r\nb\u2028\nc\r".toList = ["a".toList, "b".toList, [], "c".toList] := by decide
 
 /-- Line numbers: every token's line is between 1 and (number of lines + 1), tokens never
 span lines, and line numbers never decrease along the output. -/
